@@ -105,6 +105,7 @@ type spec struct {
 	Far     bool   `json:"far,omitempty"`   // scripted: pending elements are scheduled one hour ahead and flushed by Shutdown(IgnorePendingTimeouts)
 	Probe   bool   `json:"probe,omitempty"` // scripted: scenario-specific extra step
 	Blocker bool   `json:"blocker,omitempty"`
+	Rel     int    `json:"rel,omitempty"` // scripted bounded-queue scenarios: new element earlier (-1), equal (0), later (+1) than the pending ones
 
 	Clients      [][]opSpec `json:"clients,omitempty"`
 	NItems       int        `json:"n_items,omitempty"`
@@ -114,7 +115,7 @@ type spec struct {
 }
 
 func (s spec) key() string {
-	return fmt.Sprintf("%s|%s|w%d|m%d|f%d|far%v|p%v|b%v|c%d|sm%d", s.Script, s.Kind, s.Workers, s.MaxSize, s.Flags, s.Far, s.Probe, s.Blocker, len(s.Clients), s.ShutdownMode)
+	return fmt.Sprintf("%s|%s|w%d|m%d|f%d|far%v|p%v|b%v|r%d|c%d|sm%d", s.Script, s.Kind, s.Workers, s.MaxSize, s.Flags, s.Far, s.Probe, s.Blocker, s.Rel, len(s.Clients), s.ShutdownMode)
 }
 
 // ---------------------------------------------------------------- recorded history
@@ -127,6 +128,7 @@ type item struct {
 	gate  chan struct{}
 	once  sync.Once
 	sched time.Time // scheduled instant (monotonic reading inside)
+	abs   time.Time // scripted scenarios: absolute scheduled instant (overrides now+offUs) to produce equal/earlier/later keys
 
 	schedCall, schedRet atomic.Uint64
 	accepted            atomic.Bool
@@ -340,6 +342,9 @@ func (r *run) openAll() {
 // schedule performs Add / ExecuteAt for the element.
 func (r *run) schedule(it *item) {
 	it.sched = time.Now().Add(time.Duration(it.offUs) * time.Microsecond)
+	if !it.abs.IsZero() {
+		it.sched = it.abs
+	}
 	it.schedCall.Store(tick())
 	func() {
 		defer func() {
@@ -758,9 +763,67 @@ func (r *run) evaluate() {
 			}
 		}
 	}
-	allowedDrops := 0
+	// Size bound. A drop is excused only if the bound was really exceeded: at the moment of some accepted Add/ExecuteAt e
+	// the number of elements the MODEL allows to be pending (e included) was above max. The count is an upper bound of what
+	// a correct heap can hold at that moment: accepted elements whose Add began before e's Add returned, minus those that
+	// were certainly out of the heap before e's Add began (delivered, element-cancelled, Cancel(id)==true, replaced by a
+	// later accepted task of the same identifier). For TaskExecutor an identifier contributes at most one pending task and
+	// e replaces the earlier tasks of its own identifier (replace = cancel old + add new, never +1). Elements held by a
+	// worker inside Poll and elements already dropped still count (not observable), which only makes the excuse wider.
+	// Every Add drops at most one element, so allowed drops = number of such e (and never more than accepted - max).
+	looseDrops, allowedDrops := 0, 0
 	if r.sp.MaxSize > 0 {
-		allowedDrops = max(0, accepted-r.sp.MaxSize)
+		looseDrops = max(0, accepted-r.sp.MaxSize)
+		outBefore := func(x *item, t uint64) bool { // x certainly left the heap before tick t
+			if x.starts.Load() > 0 && x.startTick.Load() < t {
+				return true
+			}
+			for _, c := range elemCancels[x.idx] {
+				if c.Ret < t {
+					return true
+				}
+			}
+			if kind == kTask {
+				for _, c := range idCancels[x.id] {
+					if c.Result && c.Ret < t && x.schedRet.Load() < c.Call {
+						return true
+					}
+				}
+				for _, x2 := range byID[x.id] {
+					if x2 != x && x2.accepted.Load() && x.schedRet.Load() < x2.schedCall.Load() && x2.schedRet.Load() < t {
+						return true
+					}
+				}
+			}
+			return false
+		}
+		for _, e := range sched {
+			if !e.accepted.Load() {
+				continue
+			}
+			size := 1
+			ids := map[int]bool{}
+			for _, x := range sched {
+				if x == e || !x.accepted.Load() || x.schedCall.Load() >= e.schedRet.Load() || outBefore(x, e.schedCall.Load()) {
+					continue
+				}
+				if kind == kTask {
+					if x.id != e.id && !ids[x.id] {
+						ids[x.id] = true
+						size++
+					}
+					continue
+				}
+				size++
+			}
+			if size > r.sp.MaxSize {
+				allowedDrops++
+			} else if size == r.sp.MaxSize {
+				r.cnt["adds_into_full_bounded_queue_model"]++
+			}
+		}
+		r.cnt["adds_exceeding_size_bound_model"] += allowedDrops
+		allowedDrops = min(allowedDrops, looseDrops)
 	}
 	overl := func(it *item) bool {
 		return shCall != 0 && it.schedRet.Load() > shCall && (shRet == 0 || it.schedCall.Load() < shRet)
@@ -775,6 +838,9 @@ func (r *run) evaluate() {
 	}
 	r.cnt["dropped_by_size_bound_max"] += min(len(unexcused), allowedDrops)
 	switch {
+	case len(lostPending) > allowedDrops && len(unexcused) <= looseDrops:
+		it := lostPending[0]
+		r.violate(kind+"/lost-element/dropped-below-size-bound", "%d accepted element(s) (first: %d, identifier %d, offset %dus, scheduled tick %d..%d) were neither cancelled, replaced nor dropped by a flag and were never delivered at structural quiescence, but the size bound %d was exceeded by at most %d Add/ExecuteAt call(s) (pending elements per the model: accepted, not delivered, not cancelled, not replaced; a re-schedule of an identifier does not add one), so at most %d may have been dropped (Size()=%d)", len(unexcused), it.idx, it.id, it.offUs, it.schedCall.Load(), it.schedRet.Load(), r.sp.MaxSize, allowedDrops, allowedDrops, r.sizeAtEnd)
 	case len(lostPending) > allowedDrops:
 		it := lostPending[0]
 		r.violate(kind+"/lost-element/pending", "%d accepted element(s) (first: %d, offset %dus, scheduled tick %d..%d) were neither cancelled nor dropped by a flag, at most %d may be dropped by the size bound %d, and none of them was delivered at structural quiescence (Size()=%d, Shutdown flags %s)", len(unexcused), it.idx, it.offUs, it.schedCall.Load(), it.schedRet.Load(), allowedDrops, r.sp.MaxSize, r.sizeAtEnd, flagNames(r.sp.Flags))
